@@ -102,18 +102,21 @@ fn render_case<F: Backend + RenderHints>(
     s: &Scene,
     b: &Built<F>,
     g: (u32, u32, u32),
-    chain: &[usize],
+    chain: Option<&[usize]>,
     tname: &str,
     m: &Matrix4<f32>,
     pool: Option<&ThreadPool>,
 ) {
     let (w, h, d) = g;
     let desc = || {
-        json!({"backend": F::NAME, "shape": s.name, "grid": [w, h, d], "tiles": chain, "transform": tname,
+        json!({"backend": F::NAME, "shape": s.name, "grid": [w, h, d], "tiles": chain.map(|c| format!("{c:?}")).unwrap_or("backend default".into()), "transform": tname,
                "threads": if pool.is_some() { "pool (shim, default schedule)" } else { "none" }})
     };
     let cfg = RenderConfig { image_size: VoxelSize::new(w, h, d), world_to_model: *m };
-    let ecfg = EvalConfig { tile_sizes: Some(TileSizes::new(chain).unwrap()), threads: pool, cancel: Default::default() };
+    let ecfg = EvalConfig { tile_sizes: chain.map(|c| TileSizes::new(c).unwrap()), threads: pool, cancel: Default::default() };
+    // the chain in force: the caller's, or the backend's default
+    let default_chain: Vec<usize> = F::tile_sizes_3d().iter().cloned().collect();
+    let chain: &[usize] = chain.unwrap_or(&default_chain);
     cx.add("evals", 1);
     let img = match guard(|| render(b.shape.bind(&b.vars).unwrap(), &cfg, &ecfg)) {
         Ok(Some(i)) => i,
@@ -263,11 +266,38 @@ fn scene_unit<F: Backend + RenderHints>(cx: &mut Cx, tier: Tier, si: usize) {
                     }
                     cx.add("cases", 1);
                     cx.add("nontrivial", 1);
-                    render_case::<F>(cx, s, &b, g, &chain, tname, &m, if threads { Some(&pool) } else { None });
+                    render_case::<F>(cx, s, &b, g, Some(&chain), tname, &m, if threads { Some(&pool) } else { None });
                     if sid % 211 == 0 {
                         cx.sample(|| json!({"backend": F::NAME, "shape": s.name, "grid": [g.0, g.1, g.2], "tiles": chain, "transform": tname, "threads": threads}));
                     }
                 }
+            }
+        }
+    }
+    // the backend's DEFAULT tile sizes (VM [128,64,32,16,8], JIT [64,16,8]) on grids
+    // larger than one root tile in some direction
+    let global = ThreadPool::Global;
+    let big: &[(u32, u32, u32)] = match tier {
+        Tier::Quick => &[(70, 40, 33), (20, 66, 70)],
+        Tier::Thorough => &[(70, 40, 33), (20, 66, 70), (65, 65, 65), (130, 20, 16), (40, 130, 9)],
+    };
+    for &g in big {
+        for (tname, m) in transforms().into_iter().step_by(2) {
+            for threads in 0..3 {
+                let sid = sub;
+                sub += 1;
+                if !cx.case(sid) {
+                    continue;
+                }
+                cx.add("cases", 1);
+                cx.add("nontrivial", 1);
+                cx.add("default_tile_size_renders", 1);
+                let pool_ref = match threads {
+                    0 => None,
+                    1 => Some(&pool),
+                    _ => Some(&global),
+                };
+                render_case::<F>(cx, s, &b, g, None, tname, &m, pool_ref);
             }
         }
     }
@@ -286,7 +316,7 @@ impl Check for C07 {
     }
     fn meta(&self, tier: Tier) -> Meta {
         Meta {
-            rule: "case = one voxel render; full Cartesian product of 9 shapes (sphere, box, two slabs with a gap (occlusion), slab with a hole, tilted half-space, small sphere above a plate, empty, full, sphere with a free radius) x voxel grids with width != height != depth incl. non-multiples of every tile size x 11 tile-size chains (4 with a root that is not a power of two) x 6 view transforms (identity, scale, z translation, 90-degree rotation about x, general rotation+scale, camera perspective with bottom row (0,0,0.3,1)) x thread pool / none x VM / JIT; oracle: brute force over the whole column (f64 evaluation of the same program at cfg.mat()*(i,j,k,1)): depth = 1 + highest k < D with a decidably negative value, 0 if none, and D when that is >= D-1 (the implementation's documented clamp; counted separately); columns negative within the top root tile beyond the grid, or with an undecidable voxel at or above the surface, are skipped (counted); the normal of an unclamped surface pixel must match the f64 dual-number gradient of shape o transform at voxel (i,j,depth-1): direction and magnitude within 1e-3".into(),
+            rule: "case = one voxel render; full Cartesian product of 9 shapes (sphere, box, two slabs with a gap (occlusion), slab with a hole, tilted half-space, small sphere above a plate, empty, full, sphere with a free radius) x voxel grids with width != height != depth incl. non-multiples of every tile size x 11 tile-size chains (4 with a root that is not a power of two) x 6 view transforms (identity, scale, z translation, 90-degree rotation about x, general rotation+scale, camera perspective with bottom row (0,0,0.3,1)) x thread pool / none x VM / JIT; plus every shape with the backend's DEFAULT tile sizes on grids larger than a root tile (70x40x33, 20x66x70; thorough 3 more) with no pool / stand-in pool / ThreadPool::Global; oracle: brute force over the whole column (f64 evaluation of the same program at cfg.mat()*(i,j,k,1)): depth = 1 + highest k < D with a decidably negative value, 0 if none, and D when that is >= D-1 (the implementation's documented clamp; counted separately); columns negative within the top root tile beyond the grid, or with an undecidable voxel at or above the surface, are skipped (counted); the normal of an unclamped surface pixel must match the f64 dual-number gradient of shape o transform at voxel (i,j,depth-1): direction and magnitude within 1e-3".into(),
             bounds: match tier {
                 Tier::Quick => "5 grids up to 17 voxels per axis".into(),
                 Tier::Thorough => "13 grids up to 17 voxels per axis".into(),
